@@ -61,7 +61,7 @@ CHECKS["C05"] = dict(
 CHECKS["C13"] = dict(
     text="TLC checks that the implementation layer of VyLazyList (memoising cursor, every method as written) refines "
          "the plain list for every source <= 3 over {0,1,2} and every observation history (Refines, CachePrefix, "
-         "AppendOnly). Every observation path of the tier's length over the specification's 28 parametrised "
+         "AppendOnly). Every observation path of the tier's length over the specification's 33 parametrised "
          "operations is stepped through a fresh real LazyList and TLC validates each logged answer against the "
          "plain-list answer and the logged cache against the Impl layer in lock-step (Trace_LazyList).",
     note="Trusted: Abs layer = Vyxal list semantics (wrapping index, Python negative index, truncating slices); "
